@@ -661,6 +661,12 @@ impl Statement {
 
     fn r#delete(parse: &mut BasicParser) -> Result<Statement> {
         let column = parse.col.clone();
+        match parse.peek() {
+            None | Some(Token::Colon) | Some(Token::Word(Word::Else)) => {
+                return Err(error!(IllegalFunctionCall, ..&column));
+            }
+            _ => {}
+        }
         let (from, to) = parse.expect_line_number_range()?;
         Ok(Statement::Delete(column, from, to))
     }
